@@ -28,6 +28,14 @@ package parser
 //@ func convertAnyToInterface
 //@   trusted
 //@   ensures true
+// encode side: every column value - NULL included - is carried as a protobuf value (a column without
+// one cannot be restored and is dropped by ConvertToIntree)
+//@ ext google.golang.org/protobuf/types/known/anypb.MarshalFrom
+//@   ensures true
+//@ func convertInterfaceToAny
+//@   prop C08
+//@   ensures every-value-is-carried: result1 == nil ==> result0 != nil
+//@   may_panic
 //@ ext google.golang.org/protobuf/types/known/anypb.UnmarshalTo
 //@   ensures true
 // Assumed of encoding/json: Unmarshal into a *types.ColumnImage runs (*ColumnImage).UnmarshalJSON
